@@ -106,10 +106,12 @@ type pool struct {
 	keys map[string][][]*env.Key
 	vdr  *mockvdr.MockVDRegistry
 	meds map[int]*med
+	docs map[string]*did.Doc // DID documents handed out as the SAME object on every resolution (a caching VDR)
+	seqN int
 }
 
 func newPool() *pool {
-	p := &pool{w: env.NewWorld(nParties), keys: map[string][][]*env.Key{}, meds: map[int]*med{}}
+	p := &pool{w: env.NewWorld(nParties), keys: map[string][][]*env.Key{}, meds: map[int]*med{}, docs: map[string]*did.Doc{}}
 
 	for _, kt := range append(append([]string{}, env.KTs...), env.Ed25519) {
 		tab := make([][]*env.Key, nParties)
@@ -130,6 +132,10 @@ func newPool() *pool {
 // did:example:client<N>: the agent N as a mediator's client (destination of relayed messages); everything else
 // is the C01 world's directory.
 func (p *pool) resolve(id string, o ...vdrspi.DIDMethodOption) (*did.DocResolution, error) {
+	if d, ok := p.docs[id]; ok {
+		return &did.DocResolution{DIDDocument: d}, nil
+	}
+
 	if strings.HasPrefix(id, "did:example:client") {
 		n := strings.TrimPrefix(id, "did:example:client")
 
@@ -507,6 +513,100 @@ type levelObs struct {
 }
 
 func (p *pool) runWrap(kind string, c WrapCase, tr *hx.Trace) {
+	p.wrapOn(kind, c, p.freshSender(c), map[string]interface{}{"wrap": c}, "", tr)
+}
+
+// sender performs one Send for the case's destination: returns the transport captures of this send, the plaintext the
+// recipient must obtain, the error, and a description of any change the call made to the caller's objects.
+type sender func(c WrapCase, pay []byte, senderKey string) (got [][]byte, expect []byte, err error, mutated string)
+
+func (p *pool) refs(c WrapCase) (rcptRefs, routeRefs []string) {
+	for _, r := range c.Rcpts {
+		rcptRefs = append(rcptRefs, p.key(r).Ref(c.Style))
+	}
+
+	for _, r := range c.Routing {
+		routeRefs = append(routeRefs, p.key(r).Ref(c.Style))
+	}
+
+	return
+}
+
+func (p *pool) newDispatcher(party int, enc, dflt string, cap *capT) *outbound.Dispatcher {
+	pk, err := p.w.Parties[party].Packager(enc)
+	if err != nil {
+		panic(err)
+	}
+
+	o, err := outbound.NewOutbound(&obProv{&mockprovider.Provider{PackagerValue: pk, KMSValue: p.w.Parties[party].KMS,
+		VDRegistryValue: p.vdr, StorageProviderValue: mem.NewProvider(), ProtocolStateStorageProviderValue: mem.NewProvider(),
+		MediaTypeProfilesValue: []string{dflt}}, []transport.OutboundTransport{cap}})
+	if err != nil {
+		panic(err)
+	}
+
+	return o
+}
+
+func (p *pool) newDest(c WrapCase) *service.Destination {
+	rcptRefs, routeRefs := p.refs(c)
+
+	dest := &service.Destination{RecipientKeys: rcptRefs}
+	if c.V2EP {
+		dest.ServiceEndpoint = commonmodel.NewDIDCommV2Endpoint([]commonmodel.DIDCommV2Endpoint{{
+			URI: "http://dest", RoutingKeys: routeRefs, Accept: c.accept()}})
+	} else {
+		dest.ServiceEndpoint = commonmodel.NewDIDCommV1Endpoint("http://dest")
+		dest.RoutingKeys = routeRefs
+		dest.MediaTypeProfiles = c.accept()
+	}
+
+	return dest
+}
+
+// destState is everything of a destination a Send must leave alone (slices compared over their full capacity: a
+// write past len is how a later append of the caller would be corrupted)
+func destState(d *service.Destination) string {
+	rk, _ := d.ServiceEndpoint.RoutingKeys()
+	acc, _ := d.ServiceEndpoint.Accept()
+	uri, _ := d.ServiceEndpoint.URI()
+
+	return fmt.Sprintf("recipientKeys=%q routingKeys=%q endpointRoutingKeys=%q accept=%q mediaTypeProfiles=%q uri=%q",
+		d.RecipientKeys[:cap(d.RecipientKeys)], d.RoutingKeys[:cap(d.RoutingKeys)], rk, acc,
+		d.MediaTypeProfiles[:cap(d.MediaTypeProfiles)], uri)
+}
+
+// sendOn sends through the dispatcher to the (possibly re-used) destination object.
+func sendOn(o *outbound.Dispatcher, cap *capT, dest *service.Destination) sender {
+	return func(_ WrapCase, pay []byte, senderKey string) (got [][]byte, expect []byte, err error, mutated string) {
+		before := destState(dest)
+		cap.got = nil
+
+		func() {
+			defer func() {
+				if r := recover(); r != nil {
+					err = fmt.Errorf("panic: %v", r)
+				}
+			}()
+
+			err = o.Send(json.RawMessage(pay), senderKey, dest)
+		}()
+
+		if after := destState(dest); after != before {
+			mutated = "Send changed the caller's destination: before " + before + " after " + after
+		}
+
+		return cap.got, pay, err, mutated
+	}
+}
+
+func (p *pool) freshSender(c WrapCase) sender {
+	cap := &capT{}
+
+	return sendOn(p.newDispatcher(c.Sender.Party, c.Enc, c.dflt(), cap), cap, p.newDest(c))
+}
+
+func (p *pool) wrapOn(kind string, c WrapCase, snd sender, caseJSON interface{}, classExtra string, tr *hx.Trace) {
 	// the dispatcher sends json.Marshal(msg): for a RawMessage the compacted text with <, >, & escaped (same JSON value)
 	pay, merr := json.Marshal(json.RawMessage(compact(payload(c.PayClass, c.PaySeed))))
 	if merr != nil {
@@ -518,45 +618,17 @@ func (p *pool) runWrap(kind string, c WrapCase, tr *hx.Trace) {
 	sparty := c.Sender.Party
 
 	var (
-		rcptRefs, routeRefs []string
-		rcptNames           []int
-		hops                []string
+		rcptNames []int
+		hops      []string
 	)
 
 	for _, r := range c.Rcpts {
-		k := p.key(r)
-		rcptRefs = append(rcptRefs, k.Ref(c.Style))
-		rcptNames = append(rcptNames, k.Name)
+		rcptNames = append(rcptNames, p.key(r).Name)
 	}
 
 	for _, r := range c.Routing {
 		k := p.key(r)
-		routeRefs = append(routeRefs, k.Ref(c.Style))
 		hops = append(hops, fmt.Sprintf("mkhop %d %s", k.Name, coqKT(k.KT)))
-	}
-
-	cap := &capT{}
-
-	pk, err := p.w.Parties[sparty].Packager(c.Enc)
-	if err != nil {
-		panic(err)
-	}
-
-	o, err := outbound.NewOutbound(&obProv{&mockprovider.Provider{PackagerValue: pk, KMSValue: p.w.Parties[sparty].KMS,
-		VDRegistryValue: p.vdr, StorageProviderValue: mem.NewProvider(), ProtocolStateStorageProviderValue: mem.NewProvider(),
-		MediaTypeProfilesValue: []string{c.dflt()}}, []transport.OutboundTransport{cap}})
-	if err != nil {
-		panic(err)
-	}
-
-	dest := &service.Destination{RecipientKeys: rcptRefs}
-	if c.V2EP {
-		dest.ServiceEndpoint = commonmodel.NewDIDCommV2Endpoint([]commonmodel.DIDCommV2Endpoint{{
-			URI: "http://dest", RoutingKeys: routeRefs, Accept: c.accept()}})
-	} else {
-		dest.ServiceEndpoint = commonmodel.NewDIDCommV1Endpoint("http://dest")
-		dest.RoutingKeys = routeRefs
-		dest.MediaTypeProfiles = c.accept()
 	}
 
 	senderKey := ""
@@ -571,19 +643,10 @@ func (p *pool) runWrap(kind string, c WrapCase, tr *hx.Trace) {
 		senderName = sk.Name
 	}
 
-	var sendErr error
+	got, expect, sendErr, mutated := snd(c, pay, senderKey)
+	pay = expect
 
-	func() {
-		defer func() {
-			if r := recover(); r != nil {
-				sendErr = fmt.Errorf("panic: %v", r)
-			}
-		}()
-
-		sendErr = o.Send(json.RawMessage(pay), senderKey, dest)
-	}()
-
-	sent := sendErr == nil && len(cap.got) == 1
+	sent := sendErr == nil && len(got) == 1
 
 	var (
 		levels  [][]levelObs
@@ -606,9 +669,13 @@ func (p *pool) runWrap(kind string, c WrapCase, tr *hx.Trace) {
 		fail("send-panic", sendErr.Error())
 	}
 
+	if mutated != "" {
+		fail("caller-objects-changed", mutated)
+	}
+
 	// expected chain: level i is opened by the party owning routing key n-1-i only; the last level by the recipients
 	if sent {
-		cur := cap.got[0]
+		cur := got[0]
 
 		for depth := 0; depth < 8; depth++ {
 			var (
@@ -781,11 +848,11 @@ func (p *pool) runWrap(kind string, c WrapCase, tr *hx.Trace) {
 		hx.CoqNList(p.partyKeys(sparty)), payID, senderName,
 		hx.CoqNList(rcptNames), hx.CoqList(hops), hx.CoqBool(sent), hx.CoqList(lvs))
 
-	tr.Put(&hx.Record{Kind: kind, Coq: coq, Case: map[string]interface{}{"wrap": c},
+	tr.Put(&hx.Record{Kind: kind, Coq: coq, Case: caseJSON,
 		Observed: map[string]interface{}{"sent": sent, "send_err": errStr(sendErr), "levels": levels},
 		Oracle:   oracle, Sig: sig, Detail: strings.Join(details, "; "),
 		Class: fmt.Sprintf("wrap|%s|%s|%s|%s|auth=%v|v2ep=%v|r%d|h%d|med=%v|%s", profiles[c.Profile], sk.KT, c.Enc, c.Style,
-			c.Auth, c.V2EP, len(c.Rcpts), n, c.ViaMed, c.PayClass),
+			c.Auth, c.V2EP, len(c.Rcpts), n, c.ViaMed, c.PayClass) + classExtra,
 		Trivial: !sent,
 		Dist: []string{"kind:wrap", "profile:" + c.Profile, "kt:" + sk.KT, "enc:" + c.Enc, "style:" + c.Style,
 			fmt.Sprintf("auth:%v", c.Auth), fmt.Sprintf("rcpts:%d", len(c.Rcpts)), fmt.Sprintf("hops:%d", n),
@@ -910,6 +977,197 @@ func (p *pool) relay(c WrapCase, party int, fwd service.DIDCommMsgMap, depth int
 	}
 
 	return m.cap.got[0]
+}
+
+// ---------------------------------------------------------------- sequences of sends
+
+// SeqSend is one send of a sequence.
+type SeqSend struct {
+	Dest     int    `json:"dest"`
+	PayClass string `json:"pay_class"`
+	PaySeed  int    `json:"pay_seed"`
+}
+
+// SeqCase is a history of sends of ONE agent: one dispatcher instance, destinations that are re-used as objects
+// (mode "send": the same *service.Destination; mode "todid": SendToDID over a VDR that returns the same DID document
+// object on every resolution, the same connection record).
+type SeqCase struct {
+	Mode  string     `json:"mode"`
+	Dests []WrapCase `json:"dests"`
+	Sends []SeqSend  `json:"sends"`
+}
+
+func docState(d *did.Doc) string {
+	var parts []string
+
+	for i := range d.Service {
+		sv := &d.Service[i]
+		parts = append(parts, fmt.Sprintf("service %s recipientKeys=%q routingKeys=%q accept=%q", sv.ID,
+			sv.RecipientKeys[:cap(sv.RecipientKeys)], sv.RoutingKeys[:cap(sv.RoutingKeys)], sv.Accept[:cap(sv.Accept)]))
+	}
+
+	return strings.Join(parts, "; ")
+}
+
+func (p *pool) runSeq(kind string, sc SeqCase, tr *hx.Trace) {
+	if len(sc.Dests) == 0 {
+		return
+	}
+
+	p.seqN++
+	first := sc.Dests[0]
+	cap := &capT{}
+	o := p.newDispatcher(first.Sender.Party, first.Enc, first.dflt(), cap)
+	snds := make([]sender, len(sc.Dests))
+
+	switch sc.Mode {
+	case "todid":
+		myDID := fmt.Sprintf("did:example:seqme%d", p.seqN)
+		p.docs[myDID] = &did.Doc{ID: myDID, Service: []did.Service{{ID: myDID + "#svc", Type: "did-communication",
+			ServiceEndpoint: commonmodel.NewDIDCommV1Endpoint("http://me"), RecipientKeys: []string{p.key(first.Sender).DidKey},
+			Accept: []string{first.Profile}}}}
+
+		defer delete(p.docs, myDID)
+
+		for i, c := range sc.Dests {
+			theirDID := fmt.Sprintf("did:example:seqdest%d-%d", p.seqN, i)
+			rcptRefs, routeRefs := p.refs(c)
+			doc := &did.Doc{ID: theirDID, Service: []did.Service{{ID: theirDID + "#svc", Type: "did-communication",
+				ServiceEndpoint: commonmodel.NewDIDCommV1Endpoint("http://dest"), RecipientKeys: rcptRefs, RoutingKeys: routeRefs,
+				Accept: []string{c.Profile}}}}
+			p.docs[theirDID] = doc
+
+			defer delete(p.docs, theirDID)
+
+			snds[i] = func(_ WrapCase, pay []byte, _ string) (got [][]byte, expect []byte, err error, mutated string) {
+				before := docState(doc)
+				cap.got = nil
+
+				m, e := service.ParseDIDCommMsgMap(pay)
+				if e != nil {
+					panic(e)
+				}
+
+				mm := m.Clone()
+				expect, _ = json.Marshal(&mm)
+
+				func() {
+					defer func() {
+						if r := recover(); r != nil {
+							err = fmt.Errorf("panic: %v", r)
+						}
+					}()
+
+					err = o.SendToDID(m, myDID, theirDID)
+				}()
+
+				if after := docState(doc); after != before {
+					mutated = "SendToDID changed the resolved DID document: before " + before + " after " + after
+				}
+
+				return cap.got, expect, err, mutated
+			}
+		}
+	default:
+		for i, c := range sc.Dests {
+			snds[i] = sendOn(o, cap, p.newDest(c))
+		}
+	}
+
+	for i, sd := range sc.Sends {
+		if sd.Dest < 0 || sd.Dest >= len(sc.Dests) {
+			continue
+		}
+
+		c := sc.Dests[sd.Dest]
+		c.PayClass, c.PaySeed, c.ViaMed = sd.PayClass, sd.PaySeed, false
+		nth := i
+
+		if nth > 2 {
+			nth = 2
+		}
+
+		p.wrapOn(kind, c, snds[sd.Dest], map[string]interface{}{"seq": sc, "index": i},
+			fmt.Sprintf("|%s-send%d", sc.Mode, nth), tr)
+	}
+}
+
+func (p *pool) randSeq(r *hx.Rng) SeqCase {
+	sc := SeqCase{Mode: []string{"send", "todid"}[r.Intn(2)]}
+	names := profileNames()
+	base := p.randWrap(r, false)
+	base.Accept, base.Default = nil, ""
+	base.Profile = names[r.Intn(len(names))]
+	base.Enc = []string{"XC20P", "A256CBC512"}[r.Intn(2)]
+	leg := legacyFamily(base.Profile)
+	kt := env.Ed25519
+
+	if !leg {
+		kt = env.KTs[r.Intn(len(env.KTs))]
+	}
+
+	base.Sender = KeyRef{kt, 0, r.Intn(nSlots)}
+	base.Style = "didkey"
+	nd := 1 + r.Intn(3)
+
+	for d := 0; d < nd; d++ {
+		c := base
+		c.Rcpts, c.Routing = nil, nil
+
+		if sc.Mode == "todid" {
+			// SendToDID: authcrypt with the first recipient key of the own document; the connection record's profiles
+			// (the dispatcher's defaults) replace the destination's; routing keys of the V1 service block
+			c.Auth, c.V2EP = true, false
+		} else {
+			c.Auth, c.V2EP = r.Intn(3) == 0, r.Bool()
+
+			if r.Intn(3) == 0 { // destinations of one agent may differ in profile
+				c.Profile = names[r.Intn(len(names))]
+				if legacyFamily(c.Profile) != leg {
+					c.Profile = base.Profile
+				}
+			}
+		}
+
+		nr := 2 + r.Intn(2)
+		if r.Intn(5) == 0 {
+			nr = 1
+		}
+
+		for i := 0; i < nr; i++ {
+			pa := 1
+			if i > 0 && r.Bool() {
+				pa = 5
+			}
+
+			c.Rcpts = append(c.Rcpts, KeyRef{kt, pa, (i + d) % nSlots})
+		}
+
+		nh := 1 + r.Intn(3)
+		if r.Intn(6) == 0 {
+			nh = 0
+		}
+
+		for i := 0; i < nh; i++ {
+			c.Routing = append(c.Routing, KeyRef{kt, 2 + r.Intn(3), r.Intn(nSlots)})
+		}
+
+		sc.Dests = append(sc.Dests, c)
+	}
+
+	ns := 3 + r.Intn(4)
+	classes := []string{"small", "escapes", "fwdlike", "large"}
+
+	for i := 0; i < ns; i++ {
+		cl := classes[r.Intn(len(classes))]
+		if cl == "large" && r.Intn(3) != 0 {
+			cl = "small"
+		}
+
+		sc.Sends = append(sc.Sends, SeqSend{Dest: r.Intn(nd), PayClass: cl, PaySeed: r.Intn(100000)})
+	}
+
+	return sc
 }
 
 // ---------------------------------------------------------------- route cases
@@ -1397,9 +1655,11 @@ func replayBytes(p *pool, kind string, b []byte, tr *hx.Trace) {
 		Case struct {
 			Wrap  *WrapCase `json:"wrap"`
 			Route []RouteOp `json:"route"`
+			Seq   *SeqCase  `json:"seq"`
 		} `json:"case"`
 		Wrap  *WrapCase `json:"wrap"`
 		Route []RouteOp `json:"route"`
+		Seq   *SeqCase  `json:"seq"`
 	}
 
 	if err := json.Unmarshal(b, &c); err != nil {
@@ -1415,8 +1675,16 @@ func replayBytes(p *pool, kind string, b []byte, tr *hx.Trace) {
 		c.Route = c.Case.Route
 	}
 
+	if c.Case.Seq != nil {
+		c.Seq = c.Case.Seq
+	}
+
 	if c.Wrap != nil {
 		p.runWrap(kind, *c.Wrap, tr)
+	}
+
+	if c.Seq != nil {
+		p.runSeq(kind, *c.Seq, tr)
 	}
 
 	if c.Route != nil {
@@ -1461,10 +1729,10 @@ func main() {
 	corpus(p, dir, tr)
 
 	rng := hx.NewRng(args.Seed)
-	nWrap, nWrapMed, nRoute, depth := 600, 300, 1700, 3
+	nWrap, nWrapMed, nRoute, depth, nSeq := 380, 220, 1500, 3, 70
 
 	if args.Tier == "thorough" {
-		nWrap, nWrapMed, nRoute, depth = 4000, 2000, 30000, 4
+		nWrap, nWrapMed, nRoute, depth, nSeq = 4000, 2000, 30000, 4, 1200
 	}
 
 	p.systematicWraps(tr)
@@ -1475,6 +1743,11 @@ func main() {
 
 	for i := 0; i < nWrapMed; i++ {
 		p.runWrap("random-mediated", p.randWrap(rng.Fork(uint64(500_000+i)), true), tr)
+	}
+
+	// histories of sends of one agent (one dispatcher, destinations / DID documents re-used as objects)
+	for i := 0; i < nSeq; i++ {
+		p.runSeq("sequence", p.randSeq(rng.Fork(uint64(2_000_000+i))), tr)
 	}
 
 	for n := 1; n <= depth; n++ {
